@@ -42,6 +42,10 @@ THE SOFTWARE.
 #  include <omp.h>
 #endif
 
+#ifdef AMGCL_VERIF
+namespace amgcl_verif { struct access; }
+#endif
+
 namespace amgcl {
 namespace relaxation {
 
@@ -134,6 +138,10 @@ struct gauss_seidel {
     }
 
     private:
+#ifdef AMGCL_VERIF
+        friend struct ::amgcl_verif::access;
+#endif
+
         static int num_threads() {
 #ifdef _OPENMP
             return omp_get_max_threads();
@@ -200,6 +208,10 @@ struct gauss_seidel {
             std::vector< std::vector<ptrdiff_t>  > col;
             std::vector< std::vector<value_type> > val;
             std::vector< std::vector<ptrdiff_t>  > ord;
+
+#ifdef AMGCL_VERIF
+            friend struct ::amgcl_verif::access;
+#endif
 
             template <class Matrix>
             parallel_sweep(const Matrix &A)
